@@ -12,9 +12,17 @@ Rec == ndJsonDeserialize(IOEnv.TRACE)
 VARIABLE l
 Init == l = 1
 
+(* Two further observations of `exec` on a program whose first input/output event is a `say`:                       *)
+(*   "prompt"        standard input is held open and nothing is sent until the first standard-output byte has arrived *)
+(*                   (or 3 s have passed): SayLine makes the line visible when the statement runs, not at exit, so a  *)
+(*                   later `listen` finds its prompt already delivered (C08: "before the next statement runs")        *)
+(*   "stdout_closed" standard output is a pipe without a reader: the first SayLine fails, which is a runtime error    *)
+(*                   reported on standard error (its wording is the operating system's)                               *)
 Accepts(r) ==
   LET f == Final(r.p) IN
   IF r.p.usage = "bad" \/ r.p.file = "missing" THEN r.proc.stdout = "" /\ r.proc.code # 0
+  ELSE IF r.p.lib.k = "prompt" THEN r.proc.prompt_first
+  ELSE IF r.p.lib.k = "stdout_closed" THEN r.proc.code = 0 /\ Len(r.proc.stderr) >= 15 /\ SubSeq(r.proc.stderr, 1, 15) = "Runtime error: "
   ELSE /\ r.proc.stdout = f.stdout
        /\ r.proc.stderr = f.stderr
        /\ r.proc.code = 0
